@@ -114,6 +114,25 @@ def main():
     grammars = [build_grammar(g) for g in case["grammars"]]
     dataset = Dataset(tasks, {"origin": "c16"})
     if role == "write":
+        if case.get("warm"):
+            # a used object: hash, print, count, look up — before it is saved
+            for o in objs + tasks + grammars + [dataset]:
+                _safe(lambda: hash(o))
+                _safe(lambda: str(o))
+                _safe(lambda: repr(o))
+                _safe(lambda: o in {o})
+                _safe(lambda: o == o)
+            for G in grammars:
+                _safe(lambda: G.programs())
+                _safe(lambda: G.name())
+                _safe(lambda: {G: 1}[G])
+                for attr in ("primitives_used", "variables", "constants", "is_depth_bounded", "is_unambiguous"):
+                    if hasattr(G, attr):
+                        _safe(lambda: getattr(G, attr)())
+            for o in objs:
+                for attr in ("used_variables", "is_constant", "is_invariant", "depth", "size", "is_polymorphic", "arguments", "returns"):
+                    if hasattr(o, attr):
+                        _safe(lambda: getattr(o, attr)())
         with open(os.path.join(d, "objs.pkl"), "wb") as f:
             f.write(dumps(objs, case["protocol"]))
         with open(os.path.join(d, "keys.pkl"), "wb") as f:
